@@ -75,8 +75,12 @@ MANIFEST = dict(
          'reproduces with_suffix; joining relative parts is concatenation); pydsdl guarantees (one root, no duplicate definitions); '
          'stropping is an arbitrary function in the proofs (identifier-likeness and injectivity are hypotheses, C09 covers them) and a '
          'table taken from the real filter_id(x, "path") in the correspondence run; POSIX lexical resolution without symlinks for '
-         '"inside the output directory"; extraction (ExtrOcamlBasic) + OCaml driver. Not covered: the empty type list (root namespace '
-         '""), support files (C08/C12).',
+         '"inside the output directory"; extraction (ExtrOcamlBasic) + OCaml driver; C09 model of TokenEncoder.strop (Gen/Strop*.v) for '
+         'the real-stropper theorems: they use only C09 soundness and identity-on-clean-names lemmas, NOT totality, so none of them '
+         'carries cpp_whole_token_premise (C09 named premise for the totality of C++ tokens containing "__": if strop raised nothing '
+         'would be generated; real_strop then keeps the DSDL name, itself a valid identifier); c, cpp and py are all unconditional; '
+         'with_suffix is total in the model (extensions pathlib rejects make the code raise before writing: valid_ext premise). Not '
+         'covered: the empty type list (root namespace ""), html/js, content of files.',
     design='§5 C11')
 
 SAFE_COMPONENTS = ['a', 'b', 'c', 'd', 'e9', 'Abc', 'long_component_name', 'x1', 'q_', 'zz', 'm', 'n', 'p',
